@@ -8,6 +8,37 @@ COMMON_ASSUME = [
 ]
 
 PROPS = {
+    "C14": {
+        "budget_s": {"quick": 60, "thorough": 900},
+        "floor": {"quick": 50000, "thorough": 1000000},
+        "rule": "per scalar type (i32,i64,i128,BigInt, Ratio<i64|i128|BigInt>, FF2, FF<2,3,5,7,32749,46337,65537,2147483647>, QuadInt<i64|i128|BigInt,D> for D in -1,-3,2,-2,5,-7): "
+                "seeded histories of 5-30 steps on a pool of 4 values (boundary-biased magnitudes: 0,+-1, 2^31, 2^53, 2^63, 2^127 +-2, 64..2000-bit), each step one of +,-,*,neg in one of the "
+                "six operator forms (val/ref/assign), compared after every step with a BigInt-based model incl. canonical representation, ==, is_zero/is_one and Ord; "
+                "machine types must return the model value when representable and must fail (never wrap) otherwise; non-trivial = history of >= 5 steps; distinct = hash of the history",
+        "assumptions": COMMON_ASSUME + [
+            "composite machine-integer types (Ratio<i64>, QuadInt<i64,D>) may overflow in an intermediate product although the result is representable: counted as inconclusive, not as violation",
+            "BigInt (num-bigint) itself is additionally checked against residues modulo three 61-bit primes computed from decimal digits with u128 arithmetic",
+        ],
+        "technique": "reference-model monitor: random operation histories on every scalar type, each operator form judged against own BigInt-based ring models (value, canonical form, equality, order)",
+        "level_text": "Exploration: seeded operation histories on every supported scalar type with boundary-biased operands; each step's result, its stored representation, equality and ordering are decided by an independent exact model. Right level because the property is an input/history property of value types; the oracle is exact so any wrong value, non-canonical representative or inconsistent comparison is seen at the step where it appears.",
+        "level_note": "Trusts num-bigint as the model's base (itself residue-checked) and the field-by-field conversion lib->model; sampled operands, not exhaustive.",
+    },
+    "C15": {
+        "budget_s": {"quick": 90, "thorough": 1200},
+        "floor": {"quick": 20000, "thorough": 400000},
+        "rule": "per Euclidean type (i32,i64,i128,BigInt, Gauss/Eisenstein integers over i64,i128,BigInt, Ratio<i64|BigInt>, FF<2,3,7,46337>, FF2, Poly<x,Q|F2|F3|F7>, HPoly<H,Q|F3|F2>): "
+                "seeded operand pairs (boundary-biased magnitudes 0..2^2000; related pairs: multiples, associates, common factors, equal, zero) -> division identity and Euclidean size of the remainder "
+                "(all operator forms), divides, gcd (divides both, greatest w.r.t. own Euclid, symmetric, normalised), gcdx (Bezout identity, d = gcd), lcm*gcd ~ a*b, is_unit <=> inv, a*inv = 1, "
+                "normalizing unit (unit, idempotent, constant on the enumerated unit orbit); plus exact nearest-integer rounding of div_round for the integer types incl. exact halves; "
+                "non-trivial = b does not divide a with size(b) >= 2, or an operand beyond 2^53; distinct = hash of the operand pair",
+        "assumptions": COMMON_ASSUME + [
+            "machine-integer based composite types (Gauss/Eisenstein over i64/i128, Ratio<i64>, Poly over Ratio<i64>) may overflow in an intermediate: counted as inconclusive; the same rings over BigInt must never panic",
+            "for Z[i], Z[omega] 'normalised' is judged convention-free (fixed point of normalisation + constant on the six/four associates); for Z, fields and K[x] additionally by the universal convention (non-negative, 1, monic)",
+        ],
+        "technique": "reference-model monitor: Euclidean-domain identities (division, gcd, Bezout, lcm, units, normalisation, exact rounding) evaluated with own exact arithmetic on seeded boundary-biased operand pairs",
+        "level_text": "Exploration: millions of seeded operand pairs per ring (tens of thousands in the quick tier) with magnitudes from 0 to 2^2000; every identity in the statement is re-evaluated by an independent exact model. Right level: pure input property of value types with an exact oracle.",
+        "level_note": "Trusts the oracle's own Euclid / norms / unit lists; sampled operands, not exhaustive.",
+    },
     "C17": {
         "budget_s": {"quick": 40, "thorough": 600},
         "floor": {"quick": 500, "thorough": 5000},
